@@ -297,6 +297,8 @@ func rulesC09(c *Ctx) {
 	ruleKeyPresence(c, "C09.PRESENCE")
 	ruleC09FanoutAlways(c)
 	ruleC09Dangling(c)
+	// "no reference" is decided by the value, as the index maintenance does
+	ruleEmptyRef(c, "C09.EMPTYREF")
 	// every entity scan of the checks iterates the VALID ids of the store (for an extended child store:
 	// only entities that have child data), otherwise parent-only entities are reported as broken
 	ruleValidIds(c, "C09.VALIDIDS")
